@@ -88,10 +88,13 @@ def s10_packet_view(F, R, roles, h12, h10):
     for b in sorted(F.bodies.values(), key=lambda x: x['id']):
         if not F.handwritten(b) or b['kind'] != 'AssocFn' or 'device::net' not in b['id'] or not re.search(r"-> &'?\w* ?(mut )?\[u8\]$", b.get('sig', '')):
             continue
-        szs = set(t['substs'][0] for bl in b['blocks'] for t in [bl['term']] if t['k'] == 'call' and t.get('fn') == 'core::mem::size_of' and t.get('substs'))
+        if b['arg_count'] != 1:
+            continue
+        # the header-size selection may sit in the view itself or in a private helper of the module (inlined)
+        sg = supergraph(F, b['id'], opaque=lambda t, bb: not ('device::net' in bb['id'] and F.handwritten(bb) and not has_loop(bb)), tag='c16v')
+        szs = set(n_.d['substs'][0] for n_ in sg.calls(lambda d: d.get('fn') == 'core::mem::size_of' and d.get('substs')))
         if not ({h12, h10} <= szs):
             continue
-        sg = supergraph(F, b['id'], opaque=lambda t, bb: True, tag='c16v', max_depth=0)
         where = fn_site(F, b['id'])
         try:
             paths = [p for p in PathEnum(sg).run() if not p.panicked]
